@@ -97,3 +97,13 @@ Theorem C15_value_at_time_fuzzy_exact_hit t data start r i r' :
   In r' (skipn start data) -> fst r' = t -> fst r = t.
 Proof. exact (value_at_fuzzy_exact_hit t data start r i r'). Qed.
 Print Assumptions C15_value_at_time_fuzzy_exact_hit.
+
+(* getValuesAtPoints(fuzzyMatching=True): for a time-sorted series and time-ordered points (repeats allowed)
+   there is one row per point, each a row of the series, and no row of the WHOLE series is nearer to its
+   point -- the stop index of one search, handed on as the start index of the next, loses nothing *)
+Theorem C15_values_at_points_fuzzy_nearest data pts rows :
+  StronglySorted Z.lt (map fst data) -> StronglySorted Z.le pts ->
+  gvap_fuzzy pts data 0 = Ok rows ->
+  Forall2 (fun t r => In r data /\ forall r', In r' data -> Z.abs (fst r - t) <= Z.abs (fst r' - t)) pts rows.
+Proof. exact (gvap_fuzzy_nearest_from_start data pts rows). Qed.
+Print Assumptions C15_values_at_points_fuzzy_nearest.
